@@ -13,6 +13,11 @@ Tie: the translator (every run) + differential correspondence
 Oracle on the implementation alone: render an arrangement -> parse -> the positions / date format / sign mode
 are the arrangement's (or ValueError when it is ill-formed); run cmd_inspect on generated CSV files -> parse the
 suggested `format:` string -> the same date / description / amount columns inspect reported.
+Statement files (dates in 36 shapes: numeric, month names with and without comma, weekdays, 2-digit years, ISO / US / European with a
+time of day; documented header keywords, one role per header): the suggestion is accepted, gives back the date format AND the columns
+inspect reported, selects the statement's own date / description / amount cells from every row, and - when it names the format the dates
+were written with - parse_generic_csv reads exactly the statement's transactions with it.  Props/C18 `accepted_date_format_has_no_comma`,
+`comma_date_format_never_roundtrips`: a reported date format with a comma can never round-trip.
 """
 import contextlib
 import csv
@@ -389,6 +394,100 @@ def oracle_inspect(bench, headers, rows, raw=None):
     return rep, None
 
 
+# ------------------------------------------------------------------ statement files: the DATA decides nothing about the round trip
+# Bank, card and brokerage exports spell dates in many ways.  Whatever inspect learns from the data rows and puts into its report,
+# the suggested format string must still be a format string: accepted by parse_format_string, giving back the date format and the
+# columns inspect reported, and selecting from every data row the cells the statement has in its date / description / amount columns.
+# Header keywords are the ones the documentation of auto_detect_csv_format lists, one role per header, so which column is which is
+# generator truth.  (fmt, how the cell is written)  — `None` = strftime(fmt)
+DATE_SHAPES = [
+    ('%m/%d/%Y', None), ('%m/%d/%Y', 'nopad'), ('%m/%d/%y', None), ('%Y-%m-%d', None), ('%m-%d-%Y', None), ('%d.%m.%Y', None), ('%d/%m/%Y', None),
+    ('%d-%m-%Y', None), ('%d.%m.%y', None), ('%Y/%m/%d', None), ('%Y%m%d', None), ('%Y.%m.%d', None),
+    ('%b %d, %Y', None), ('%b %d, %Y', 'nopad'), ('%B %d, %Y', None), ('%b %d %Y', None), ('%d %b %Y', None), ('%d %b %Y', 'nopad'), ('%d-%b-%Y', None),
+    ('%d %B %Y', None), ('%d-%b-%y', None), ('%d %b %y', None), ('%b-%d-%Y', None), ('%a, %b %d, %Y', None), ('%A, %B %d, %Y', None), ('%a %d %b %Y', None),
+    ('%b. %d, %Y', None), ('%d. %B %Y', None), ('%Y-%m-%d %H:%M:%S', None), ('%Y-%m-%dT%H:%M:%S', None), ('%Y-%m-%dT%H:%M:%SZ', None),
+    ('%m/%d/%Y %H:%M', None), ('%m/%d/%Y %I:%M %p', None), ('%d.%m.%Y %H:%M', None), ('%d/%m/%Y, %H:%M', None), ('%Y-%m-%d, %H:%M', None)]
+ST_DATE_H = ['Date', 'Transaction Date', 'Posting Date', 'Trans Date', 'date', 'DATE', 'Post Date']
+ST_DESC_H = ['Description', 'Merchant', 'Payee', 'Memo', 'Name', 'Merchant Name', 'DESCRIPTION', 'Original Description']
+ST_AMT_H = ['Amount', 'Debit', 'Charge', 'Transaction Amount', 'AMOUNT', 'Amount (USD)']
+ST_LOC_H = ['Location', 'City', 'State', 'City/State']
+ST_NEUTRAL_H = ['Balance', 'Reference', 'Type', 'Check No', 'Category', 'Notes', 'Currency', 'Card', 'Id', '']
+ST_DESCS = ['COFFEE SHOP 1', 'AMAZON MKTPL*2A', 'ACME, INC. PAYROLL', 'UBER *TRIP', 'Whole Foods #123', 'RENT "MAIN ST"', 'Café Zoë', 'TRANSFER TO SAVINGS']
+
+
+def gen_statement(r):
+    """-> dict(headers, rows, truth): a statement export with one date, one description and one amount column (optionally a location
+    column and neutral columns, any order), 5-40 data rows whose date cells follow ONE shape of DATE_SHAPES (a few cells blank or
+    'pending'), descriptions with commas / quotes, signed decimal amounts"""
+    import datetime
+    fmt, how = r.choice(DATE_SHAPES) if r.random() < 0.8 else r.choice(DATE_SHAPES[:4])     # the four commonest a little more often
+    roles = ['date', 'desc', 'amount'] + (['loc'] if r.random() < 0.3 else []) + ['n'] * r.choice([0, 0, 1, 2, 3])
+    r.shuffle(roles)
+    pools = {'date': ST_DATE_H, 'desc': ST_DESC_H, 'amount': ST_AMT_H, 'loc': ST_LOC_H}
+    neutral = r.sample(ST_NEUTRAL_H, len(ST_NEUTRAL_H))
+    headers = [r.choice(pools[x]) if x != 'n' else neutral.pop() for x in roles]
+    col = {x: roles.index(x) for x in ('date', 'desc', 'amount')}
+    rows, truth = [], []
+    d0 = datetime.datetime(r.choice([2023, 2024, 2025]), r.randint(1, 12), r.randint(1, 28), r.randint(0, 23), r.randint(0, 59), r.randint(0, 59))
+    for i in range(r.choice([5, 8, 12, 20, 40])):
+        d = d0 + datetime.timedelta(days=r.randint(0, 300), minutes=r.randint(0, 1440))
+        cell = d.strftime(fmt)
+        if how == 'nopad':        # 1/5/2025, Jan 5, 2025, 5 Jan 2025: day and month numbers without the leading zero
+            cell = re.sub(r'(?<![0-9])0([1-9])(?![0-9])', r'\1', cell)
+        odd = r.random()
+        if odd < 0.05:
+            cell = ''
+        elif odd < 0.1:
+            cell = r.choice(['pending', 'n/a', 'PENDING'])
+        cents = r.choice([1, -1]) * r.randint(1, 250000)
+        amount = ('-' if cents < 0 else '') + '%d.%02d' % divmod(abs(cents), 100)
+        desc = r.choice(ST_DESCS) + ('' if r.random() < 0.5 else ' %d' % i)
+        row = []
+        for x in roles:
+            row.append({'date': cell, 'desc': desc, 'amount': amount, 'loc': r.choice(['Seattle, WA', 'WA', '', 'NEW YORK NY']),
+                        'n': r.choice(['', '1,024.00', 'debit', 'x', '12'])}[x])
+        rows.append(row)
+        truth.append({'date_cell': cell, 'description': desc, 'amount_cell': amount, 'cents': cents,
+                      'date': d.strftime('%Y-%m-%d') if odd >= 0.1 else None})
+    return {'headers': headers, 'rows': rows, 'date_format': fmt, 'written': how or 'strftime', 'columns': col, 'truth': truth}
+
+
+def oracle_statement(bench, st):
+    """the round trip of inspect's suggestion on a statement file whose columns and cells are generator truth"""
+    rep, f = oracle_inspect(bench, st['headers'], st['rows'])
+    base = {'headers': st['headers'], 'rows': st['rows'], 'raw': None, 'statement': st, 'inspect': rep}
+    if f:
+        return rep, dict(f, statement=st), None
+    if not rep.get('detected'):
+        return rep, None, None
+    from tally import format_parser, parsers
+    spec = format_parser.parse_format_string(rep['format'], None)
+    if spec.date_format != rep['date_format']:
+        return rep, dict(base, **{'class': 'suggestion-loses-the-date-format', 'observed': spec.date_format, 'required': rep['date_format']}), None
+    # the cells the suggestion selects from every data row (csv.reader, trusted, as the implementation opens the file)
+    with open(bench.path, 'r', encoding='utf-8') as fh:
+        data = list(csv.reader(fh))[1:]
+    sel = [[row[spec.date_column], row[spec.description_column], row[spec.amount_column]] for row in data]
+    want = [[t['date_cell'], t['description'], t['amount_cell']] for t in st['truth']]
+    if sel != want:
+        i = next(k for k in range(max(len(sel), len(want))) if k >= len(sel) or k >= len(want) or sel[k] != want[k])
+        return rep, dict(base, **{'class': 'suggestion-selects-other-cells-than-the-statement-has', 'row': i, 'observed': sel[i] if i < len(sel) else None,
+                                  'required': want[i] if i < len(want) else None}), None
+    # when the suggestion names the format the dates were written with, reading the file with it yields the statement's transactions
+    reads = spec.date_format == st['date_format']
+    if reads:
+        try:
+            txns = parsers.parse_generic_csv(bench.path, spec, [])
+            got = [[t['date'].strftime('%Y-%m-%d'), t['raw_description'], round(t['amount'] * 100)] for t in txns]
+        except Exception as e:  # noqa: BLE001
+            got = {'crash': type(e).__name__}
+        wantt = [[t['date'], t['description'], t['cents']] for t in st['truth'] if t['date'] is not None]
+        if got != wantt:
+            return rep, dict(base, **{'class': 'suggestion-does-not-read-the-statement', 'observed': got if isinstance(got, dict) else got[:5],
+                                      'required': wantt[:5], 'rows_required': len(wantt)}), reads
+    return rep, None, reads
+
+
 def table_words():
     t = fmt_tables.extract(common.read(os.path.join(common.SRC, 'format_parser.py')),
                            common.read(os.path.join(common.SRC, 'parsers.py')))
@@ -536,6 +635,8 @@ def _run(ctx, r, bench):
         ce = rp.get('counterexample') or {}
         if 'format' in ce:
             f = replay_arrangement(ce)
+        elif 'statement' in ce:
+            _, f, _ = oracle_statement(bench, ce['statement'])
         elif 'headers' in ce:
             _, f = oracle_inspect(bench, ce['headers'], ce['rows'], ce.get('raw'))
         else:
@@ -649,6 +750,30 @@ def _run(ctx, r, bench):
         else:
             dinsp.append(None)
         dmeta.append((hs, data, raw))
+    # ---- stream 2b: statement files (date cells in every shape an export uses); oracle + the same two correspondences
+    st_stat = {'files': 0, 'detected': 0, 'suggestion_names_the_format_the_dates_were_written_with': 0, 'transactions_read_back': 0,
+               'suggested_date_formats': {}, 'date_shapes': {}}
+    for i in range(150 if quick else 4000):
+        st = gen_statement(r)
+        rep, f, reads = oracle_statement(bench, st)
+        if f:
+            prop_fail.append(f)
+        read_back = bench.read_headers()
+        dimpl.append(impl_detect(bench.path))
+        hl = read_back or []
+        dcases.append({'op': 'detect', 'headers': hl, 'ext': ext_of(hl, hl)})
+        dinsp.append(rep)
+        dmeta.append((st['headers'], st['rows'], None))
+        st_stat['files'] += 1
+        st_stat['detected'] += bool(rep.get('detected'))
+        key = st['date_format'] + (' (no leading zeros)' if st['written'] == 'nopad' else '')
+        st_stat['date_shapes'][key] = st_stat['date_shapes'].get(key, 0) + 1
+        if rep.get('detected'):
+            st_stat['suggested_date_formats'][rep['date_format']] = st_stat['suggested_date_formats'].get(rep['date_format'], 0) + 1
+        if reads:
+            st_stat['suggestion_names_the_format_the_dates_were_written_with'] += 1
+            st_stat['transactions_read_back'] += sum(1 for t in st['truth'] if t['date'] is not None)
+    ctx.notes['statement_files'] = st_stat
     corr, corr_s = [], []
     n_detected = n_inspected = n_roundtrip = 0
     det_nontrivial = set()
@@ -736,7 +861,14 @@ def _run(ctx, r, bench):
         'a table of malformed tokens, and 1-3 character edits of valid strings; templates valid / missing / empty / '
         'wrong-case / uncaptured. header rows: every keyword of the four regenerated tables alone and in context, '
         'decorated keywords shuffled among neutral columns, two-role headers, missing / repeated roles, random text; '
-        'each written to a real CSV file and read by auto_detect_csv_format and cmd_inspect. non-trivial (format) = '
+        'each written to a real CSV file and read by auto_detect_csv_format and cmd_inspect. statement files: the documented header '
+        'keywords, one role per header, in any order among neutral columns, 5-40 data rows whose date cells follow one of '
+        f'{len(DATE_SHAPES)} shapes (numeric with / - . and no separator, 2- and 4-digit years, day or month first, without leading zeros, '
+        'month names short / long with and without comma, weekday names, ISO and US dates with a time of day), a few blank / pending '
+        'cells, descriptions with commas and quotes; required: the suggestion is accepted, gives back the date format and the columns '
+        'inspect reported, selects from every data row the statement\'s own date / description / amount cells, and - when it names '
+        'the format the dates were written with - parse_generic_csv reads exactly the statement\'s transactions with it '
+        '(counts in coverage.statement_files). non-trivial (format) = '
         'accepted with the date not in column 0 and a custom / extra / location column or a required column beyond '
         'index 2, or rejected for a duplicate / missing field / template reason at a column > 0; non-trivial (headers) = '
         'detected with the date not first or the three roles out of order')
@@ -762,6 +894,12 @@ def _run(ctx, r, bench):
             if f:
                 out.append(f)
                 break
+        for _ in range(0 if out else 3000):
+            _, f, _ = oracle_statement(bench, gen_statement(rr))
+            cnt += 1
+            if f:
+                out.append(f)
+                break
         ctx.cov['evaluations'] += cnt + 2 * sum(6 ** n for n in range(1, 7))
         return out
 
@@ -776,7 +914,7 @@ def classify(failure):
 REQUIRED = ('the format string listing an arrangement in order parses to exactly those column positions, date format and '
             'sign mode; a missing required field, a duplicate, a custom capture without template or a template naming an '
             'uncaptured column raises ValueError; the format string inspect suggests is accepted and selects the same '
-            'date / description / amount columns inspect reported')
+            'date / description / amount columns (and gives back the date format) inspect reported, whatever the data rows look like')
 EXTRA_TRUSTED = [
     'table translator harness/translate/fmt_tables.py (reserved names, required fields, default date formats, header keyword '
     'tables; pins the two regular expressions textually)',
